@@ -173,15 +173,41 @@ class Run:
         src = strip_lean_comments(open(os.path.join(LEAN, relpath), encoding="utf-8").read())
         return re.findall(r"^\s*(?:private\s+|protected\s+)?theorem\s+([^\s:({\[]+)", src, re.M)
 
-    def forbidden_scan(self):
-        bad = []
+    def import_closure(self, modules):
+        """project files reachable from the given modules through `import SphericalVerif.*` / `import Driver.*`"""
+        seen, todo = set(), list(modules)
+        while todo:
+            m = todo.pop()
+            if m in seen:
+                continue
+            seen.add(m)
+            path = os.path.join(LEAN, m.replace(".", "/") + ".lean")
+            try:
+                src = open(path, encoding="utf-8").read()
+            except OSError:
+                continue
+            for mm in re.findall(r"^import\s+((?:SphericalVerif|Driver)\.[\w.]+)", src, re.M):
+                todo.append(mm)
+        return sorted(seen)
+
+    def forbidden_scan(self, modules=None):
+        """forbidden tokens in every project file the given property modules depend on (plus Gen/, Spec/, Model/).
+        Files outside that closure (e.g. another property's work in progress) are reported in the notes only."""
+        bad, other = [], []
+        closure = None
+        if modules is not None:
+            closure = {os.path.join("SphericalVerif", *m.split(".")[1:]) + ".lean" for m in self.import_closure(modules) if m.startswith("SphericalVerif.")}
         for root, _, files in os.walk(os.path.join(LEAN, "SphericalVerif")):
             for f in files:
                 if f.endswith(".lean"):
                     p = os.path.join(root, f)
+                    rel = os.path.relpath(p, LEAN)
                     src = strip_lean_comments(open(p, encoding="utf-8").read())
                     for m in FORBIDDEN.finditer(src):
-                        bad.append(f"{os.path.relpath(p, LEAN)}: {m.group(0).strip()}")
+                        core = rel.split(os.sep)[1] in ("Gen", "Spec", "Model")
+                        (bad if (closure is None or rel in closure or core) else other).append(f"{rel}: {m.group(0).strip()}")
+        if other:
+            self.notes["forbidden_tokens_outside_this_property"] = other[:10]
         return bad
 
     def lean_props(self, modules, thorough_clean=True):
@@ -195,7 +221,7 @@ class Run:
             ns = m.split(".")[-1]
             for t in self.theorem_names(rel):
                 thms.append((m, t))
-        bad = self.forbidden_scan()
+        bad = self.forbidden_scan(modules)
         self.obligation("source-scan:no-sorry-axiom-native_decide", not bad, "; ".join(bad[:10]))
         with lake_lock():
             if self.tier == "thorough" and thorough_clean:
